@@ -234,6 +234,17 @@ class RealRun:
             self.sched = None
             ev['loaded'] = snap_state(self.pre.state_dict())
             w.set_digest(self._digest)
+        elif kind == 'reload':
+            # a factor-less state loaded back into the SAME object, on the
+            # listed ranks only (implies no collective: there is nothing to
+            # invert or to broadcast)
+            if len(op) == 1 or self.rank in op[1]:
+                import warnings
+
+                sd = self.pre.state_dict(include_factors=False)
+                with warnings.catch_warnings():
+                    warnings.simplefilter('ignore')
+                    self.pre.load_state_dict(sd)
         elif kind == 'setneg':
             # load negative definite A factors (a state a user may hand to
             # load_state_dict): with the inverse method <V,D> is negative
